@@ -90,7 +90,7 @@ func (dc *DocumentChunker) chunkPage(page *model.Page, docTitle string, currentS
 		}
 	}
 
-	for _, elem := range page.Elements {
+	for _, elem := range resolveRepeatedHeadings(page) {
 		switch e := elem.(type) {
 		case *model.Paragraph:
 			// Update section context if this is a heading-like paragraph
@@ -434,6 +434,59 @@ func getHeadingLevel(text string, toc []model.TOCEntry, pageNum int) int {
 	}
 
 	return 1 // Default to level 1
+}
+
+// resolveRepeatedHeadings returns the elements of a page as chunkPage walks them.
+// A heading-like paragraph (its text is the text of a layout heading of the page)
+// that repeats the text of an earlier heading of the same page is replaced by the
+// heading it stands for: the layout heading with the same index among the page's
+// layout headings with that text, or the last of them when there are fewer.
+// Matched by text alone it would take the level of the first heading with that
+// text ("Overview" as H2 and again as H4 on one page). Every other element is
+// returned as it is.
+func resolveRepeatedHeadings(page *model.Page) []model.Element {
+	if page.Layout == nil || len(page.Layout.Headings) == 0 {
+		return page.Elements
+	}
+
+	// levels of the layout headings by trimmed text, in page order
+	levels := make(map[string][]int)
+	for _, h := range page.Layout.Headings {
+		key := strings.TrimSpace(h.Text)
+		levels[key] = append(levels[key], h.Level)
+	}
+
+	seen := make(map[string]int) // headings met so far, by trimmed text
+	var resolved []model.Element // copy of page.Elements, made on the first replacement
+	for i, elem := range page.Elements {
+		switch e := elem.(type) {
+		case *model.Heading:
+			seen[strings.TrimSpace(e.Text)]++
+		case *model.Paragraph:
+			key := strings.TrimSpace(e.Text)
+			ls := levels[key]
+			if len(ls) == 0 {
+				continue
+			}
+			n := seen[key]
+			seen[key]++
+			if n == 0 {
+				continue // first heading with this text: matched through the table of contents
+			}
+			if n >= len(ls) {
+				n = len(ls) - 1
+			}
+			if resolved == nil {
+				resolved = append([]model.Element(nil), page.Elements...)
+			}
+			resolved[i] = &model.Heading{Text: e.Text, Level: ls[n], BBox: e.BBox}
+		}
+	}
+
+	if resolved == nil {
+		return page.Elements
+	}
+	return resolved
 }
 
 // pushSection opens a section for a heading of the given level: every open
